@@ -23,8 +23,23 @@ _SALT = 0
 CACHE = os.path.join(".signac", "statepoint_cache.json.gz")
 
 
+_POINTS_CACHE = {}
+
+
 def sps():
-    return [{"k": i, "salt": _SALT} for i in range(_N)]
+    """N state points {"k": i, "salt": s} whose ids all start with the same hex digit (so that abbreviated ids collide)."""
+    key = (_N, _SALT)
+    if key not in _POINTS_CACHE:
+        pts = [{"k": 0, "salt": _SALT}]
+        first = canon.job_id(pts[0])[0]
+        i = 1
+        while len(pts) < _N:
+            cand = {"k": i, "salt": _SALT}
+            if canon.job_id(cand)[0] == first:
+                pts.append(cand)
+            i += 1
+        _POINTS_CACHE[key] = pts
+    return [dict(p) for p in _POINTS_CACHE[key]]
 
 
 def ops():
@@ -44,6 +59,7 @@ def ops():
 
 
 FILTERS = [{}, {"k": 0}, {"k": {"$gt": 0}}, {"k": {"$exists": True}}, {"$not": {"k": 1}}, {"k": {"$in": [0, 2]}}]
+# (k values of the chosen points are arbitrary non-negative ints; the filters above are evaluated on them by _model_filter)
 
 
 def _model_filter(f, k):
@@ -91,6 +107,15 @@ def battery(d, ids_of, model):
             cur = p.find_jobs(f)
             out[f"find{n}"] = sorted(j.id for j in cur)
             out[f"len{n}"] = len(cur)
+        # abbreviated ids: the shortest prefix that is unique among the jobs in the workspace
+        present = [ids_of[i] for i in sorted(model)]
+        for i in sorted(model):
+            full = ids_of[i]
+            ln = next(n for n in range(1, 33) if sum(1 for x in present if x.startswith(full[:n])) == 1)
+            try:
+                out[f"abbr{i}"] = signac.Project(d).open_job(id=full[:ln]).id
+            except Exception as e:  # noqa
+                out[f"abbr{i}"] = f"{type(e).__name__}"
         p = signac.Project(d)
         for i in sorted(model):
             job = p.open_job(id=ids_of[i])
@@ -109,6 +134,7 @@ def expected_battery(ids_of, model, points):
         out[f"find{n}"] = m
         out[f"len{n}"] = len(m)
     for i in sorted(model):
+        out[f"abbr{i}"] = ids_of[i]
         out[f"sp{i}"] = canon.canon_json(points[i])
         out[f"csp{i}"] = canon.canon_json(points[i])
         out[f"in{i}"] = True
